@@ -6,7 +6,7 @@ Local Open Scope Z_scope.
 
 (* the invariant of the parser + screen: as long as no text-area resize was executed, the cursor is on the screen *)
 Definition InvA (m : amach) : Prop := resized (ps m) = false -> Inv09 (tm m).
-Definition Good (o : outcome) : Prop := match o with OOk m | OErr m => InvA m | _ => True end.
+Definition Good (o : outcome) : Prop := match o with OOk m | OErr m | ODeep m => InvA m | OPanic _ => True end.
 
 Lemma good_ok : forall t p t' p', resized p' = resized p -> (Inv09 t -> Inv09 t') -> InvA (mkA t p) -> Good (ok t' p').
 Proof. intros t p t' p' Hr Hi HA. cbn. intro R. apply Hi, HA. cbn in *. congruence. Qed.
@@ -292,15 +292,14 @@ Proof.
   intros stepf Hs body t0 p0 H. unfold feed_macro.
   assert (G0 : Good (ok t0 p0)) by exact H.
   generalize dependent (ok t0 p0). induction body as [|c r IH]; intros o Go; cbn; [exact Go|].
-  apply IH. destruct o as [m1|m1| |]; try exact I.
-  - pose proof (Hs m1 c Go) as G. destruct (stepf m1 c); exact G.
-  - pose proof (Hs m1 c Go) as G. destruct (stepf m1 c); exact G.
+  apply IH. destruct o as [m1|m1|s|m1]; try exact Go.
+  pose proof (Hs m1 c Go) as G. destruct (stepf m1 c); exact G.
 Qed.
 
 Lemma astep_good : forall fuel m ch, InvA m -> Good (astep fuel m ch).
 Proof.
   induction fuel as [|k IH]; intros m ch H; cbn [astep]; apply astep_gen_good; try exact H.
-  - intros t0 p0 id H0. destruct (lookup id (macros p0)); [exact I|exact H0].
+  - intros t0 p0 id H0. destruct (lookup id (macros p0)); exact H0.
   - intros t0 p0 id H0. destruct (lookup id (macros p0)) as [body|]; [|exact H0]. apply feed_macro_good; [exact IH|exact H0].
 Qed.
 
